@@ -56,6 +56,8 @@ type Scen struct {
 	// first one: a probe of the first is then blocked and rolled back by its exit hook. Used
 	// with the "E" step (a real api.Entry + Exit); such scenarios are preemption bounded.
 	Second bool `json:"second,omitempty"`
+	// Api: driven through api.Entry with this breaker alone (no second breaker)
+	Api bool `json:"api,omitempty"`
 
 	br        cb.CircuitBreaker
 	stateAddr unsafe.Pointer
@@ -64,6 +66,7 @@ type Scen struct {
 	results   [][]int  // per thread per step: -1 n/a, 0 false, 1 true
 	loaded    [][]int  // state value loaded by that TryPass
 	didCAS    [][]bool // that TryPass performed Open->HalfOpen itself
+	loadedAt  [][]int  // number of state writes that had happened when that step first loaded the state
 	curThread func() int
 	curStep   []int
 	now       int64
@@ -73,6 +76,7 @@ type swrite struct {
 	prev, next int
 	at         int64
 	thread     int
+	step       int // index of the step of that thread's program during which the write happened
 }
 
 func (s *Scen) name() string { b, _ := json.Marshal(s); return string(b) }
@@ -83,19 +87,19 @@ func (l lst) OnTransformToClosed(prev cb.State, rule cb.Rule) {
 	if rule.Id != "x" {
 		return
 	}
-	l.s.heard = append(l.s.heard, swrite{int(prev), stClosed, l.s.now, vsched.Cur()})
+	l.s.heard = append(l.s.heard, swrite{int(prev), stClosed, l.s.now, vsched.Cur(), 0})
 }
 func (l lst) OnTransformToOpen(prev cb.State, rule cb.Rule, snapshot interface{}) {
 	if rule.Id != "x" {
 		return
 	}
-	l.s.heard = append(l.s.heard, swrite{int(prev), stOpen, l.s.now, vsched.Cur()})
+	l.s.heard = append(l.s.heard, swrite{int(prev), stOpen, l.s.now, vsched.Cur(), 0})
 }
 func (l lst) OnTransformToHalfOpen(prev cb.State, rule cb.Rule) {
 	if rule.Id != "x" {
 		return
 	}
-	l.s.heard = append(l.s.heard, swrite{int(prev), stHalfOpen, l.s.now, vsched.Cur()})
+	l.s.heard = append(l.s.heard, swrite{int(prev), stHalfOpen, l.s.now, vsched.Cur(), 0})
 }
 
 var bizErr = errors.New("biz")
@@ -170,11 +174,13 @@ func (s *Scen) setup() {
 	s.results = make([][]int, len(s.Progs))
 	s.loaded = make([][]int, len(s.Progs))
 	s.didCAS = make([][]bool, len(s.Progs))
+	s.loadedAt = make([][]int, len(s.Progs))
 	s.curStep = make([]int, len(s.Progs))
 	for i, p := range s.Progs {
 		s.results[i] = make([]int, len(p))
 		s.loaded[i] = make([]int, len(p))
 		s.didCAS[i] = make([]bool, len(p))
+		s.loadedAt[i] = make([]int, len(p))
 		for j := range p {
 			s.results[i][j] = -1
 			s.loaded[i][j] = -1
@@ -202,10 +208,11 @@ func (s *Scen) afterOp(kind uint8, addr unsafe.Pointer, old, new uint64, ok bool
 	case vsched.KLoad:
 		if j < len(s.loaded[me]) && s.loaded[me][j] < 0 {
 			s.loaded[me][j] = int(int32(new))
+			s.loadedAt[me][j] = len(s.writes)
 		}
 	case vsched.KCAS:
 		if ok {
-			s.writes = append(s.writes, swrite{int(int32(old)), int(int32(new)), s.now, me})
+			s.writes = append(s.writes, swrite{int(int32(old)), int(int32(new)), s.now, me, j})
 			if int(int32(old)) == stOpen && int(int32(new)) == stHalfOpen && j < len(s.didCAS[me]) {
 				s.didCAS[me][j] = true
 			}
@@ -217,7 +224,7 @@ func (s *Scen) afterOp(kind uint8, addr unsafe.Pointer, old, new uint64, ok bool
 		} else {
 			prev = map[string]int{"closed": stClosed, "open-due": stOpen, "open-fresh": stOpen, "halfopen": stHalfOpen}[s.Init]
 		}
-		s.writes = append(s.writes, swrite{prev, int(int32(new)), s.now, me})
+		s.writes = append(s.writes, swrite{prev, int(int32(new)), s.now, me, j})
 	}
 }
 
@@ -302,7 +309,8 @@ func (s *Scen) check(x *vsched.Exec) (string, string) {
 	if s.Init == "open-due" || s.Init == "open-fresh" {
 		openedAt = T0
 	}
-	for _, w := range s.writes {
+	lastOpenIdx := -1
+	for wi, w := range s.writes {
 		if w.prev != prev {
 			return out, fmt.Sprintf("transition %s->%s performed while the breaker was %s", name(w.prev), stName[w.next], stName[prev])
 		}
@@ -313,7 +321,36 @@ func (s *Scen) check(x *vsched.Exec) (string, string) {
 		}
 		// (3) no probe before a full retry timeout since the breaker opened
 		if w.next == stHalfOpen && openedAt >= 0 && w.at < openedAt+retry {
-			return out, fmt.Sprintf("request admitted (Open->HalfOpen) %d ms after the breaker opened, retry timeout is %d ms", w.at-openedAt, retry)
+			aba := ""
+			if w.thread >= 0 && w.thread < len(s.Progs) && w.step < len(s.loadedAt[w.thread]) && lastOpenIdx >= 0 && s.loadedAt[w.thread][w.step] <= lastOpenIdx {
+				// the caller decided to probe when it saw the PREVIOUS open round (whose timeout had
+				// elapsed); the breaker was probed, closed and re-opened before its compare-and-swap
+				aba = " [the caller had observed Open before the breaker was re-opened: ABA on the state word]"
+			}
+			return out, fmt.Sprintf("request admitted (Open->HalfOpen) %d ms after the breaker opened, retry timeout is %d ms%s", w.at-openedAt, retry, aba)
+		}
+		// (2b) every transition has its cause: only a completion opens a closed breaker, only a failing
+		// one re-opens a half-open breaker, only a successful one closes it, only an arriving request
+		// moves it to half-open; a request through the API (which completes without error) re-opens a
+		// half-open breaker only when it was the probe and a later check blocked it
+		if w.thread >= 0 && w.thread < len(s.Progs) && w.step < len(s.Progs[w.thread]) {
+			op := s.Progs[w.thread][w.step]
+			ok := false
+			switch {
+			case w.next == stHalfOpen:
+				ok = op == opPass || op == opEntr
+			case w.next == stClosed:
+				ok = op == opOK || op == opEntr
+			case w.next == stOpen && w.prev == stClosed:
+				// any completion may find the window at its threshold (minimum amount reached by a
+				// success; statistics of the previous round not cleared yet by a concurrent closer)
+				ok = op == opFail || op == opOK || op == opEntr
+			case w.next == stOpen && w.prev == stHalfOpen:
+				ok = op == opFail || (op == opEntr && s.Second)
+			}
+			if !ok {
+				return out, fmt.Sprintf("transition %s->%s performed while thread %d was in step %q, which cannot cause it (transitions %s)", name(w.prev), stName[w.next], w.thread, op, fmtW(s.writes))
+			}
 		}
 		if w.next == stOpen {
 			if w.prev == stHalfOpen && s.Second && s.Progs[w.thread][0] == opEntr {
@@ -321,6 +358,9 @@ func (s *Scen) check(x *vsched.Exec) (string, string) {
 			} else {
 				openedAt = w.at
 			}
+		}
+		if w.next == stOpen {
+			lastOpenIdx = wi
 		}
 		prev = w.next
 	}
@@ -386,7 +426,7 @@ func (s *Scen) stateKey() uint64 {
 }
 
 func (s *Scen) scenario() *sched.Scenario {
-	if s.Second {
+	if s.Second || s.Api {
 		// the API path touches locks and pools outside the state key: preemption bounding only
 		return &sched.Scenario{Name: s.name(), Setup: s.setup, Threads: s.threads, Check: s.check, MaxSteps: 50000}
 	}
@@ -408,6 +448,7 @@ func scenarios(quick bool) []*Scen {
 		{"open-due", 0, [][]string{{opPass}, {opPass}}},
 		{"open-due", 0, [][]string{{opPass}, {opPass}, {opPass}}},
 		{"open-due", 1, [][]string{{opPass}, {opPass}}},
+		{"open-due", 0, [][]string{{opPass}, {opPass, opOK}, {opFail}}}, // a whole round fits between a caller's check and its CAS
 		{"open-fresh", 0, [][]string{{opPass}, {opTick}, {opPass}}},
 		{"open-fresh", 0, [][]string{{opPass, opPass}, {opTick}}},
 		{"halfopen", 0, [][]string{{opFail}, {opOK}}},
@@ -469,11 +510,22 @@ func scenarios(quick bool) []*Scen {
 		out = append(out, &Scen{Strategy: 2, Init: "open-due", Second: true, Progs: pg})
 		out = append(out, &Scen{Strategy: 2, Init: "halfopen", Second: true, Progs: pg})
 	}
+	// through the API with the breaker alone: requests that lose the race for the probe are blocked
+	// entries with exit hooks of their own
+	for _, init := range []string{"open-due", "halfopen", "closed"} {
+		for _, pg := range [][][]string{{{opEntr}, {opEntr}}, {{opEntr}, {opEntr}, {opEntr}}, {{opEntr}, {opPass}}, {{opEntr}, {opFail}}, {{opEntr}, {opOK}}, {{opEntr, opEntr}, {opEntr}}} {
+			out = append(out, &Scen{Strategy: 2, Init: init, Api: true, Progs: pg})
+		}
+	}
 	return out
 }
 
 func signature(what string) string {
 	switch {
+	case strings.Contains(what, "which cannot cause it"):
+		return "C12:transition-without-cause"
+	case strings.Contains(what, "ABA on the state word"):
+		return "C12:probe-before-retry-timeout:stale-open-observation"
 	case strings.Contains(what, "ms after the breaker opened"):
 		return "C12:probe-before-retry-timeout"
 	case strings.Contains(what, "listeners heard"):
@@ -511,7 +563,7 @@ func run(c *props.Ctx) {
 			break
 		}
 		bound := -1
-		if s.Second {
+		if s.Second || s.Api {
 			bound = 2
 			if !c.Quick() {
 				bound = 3
